@@ -58,7 +58,7 @@ from apischema.ordering import Ordering, sort_by_order
 from apischema.schemas import Schema
 from apischema.schemas import get_schema as _get_schema
 from apischema.schemas import merge_schema
-from apischema.serialization import serialize
+from apischema.serialization import PassThroughOptions, serialize
 from apischema.serialization.serialized_methods import (
     SerializedMethod,
     get_serialized_methods,
@@ -701,6 +701,8 @@ def _schema(
         conversion=version.conversion,
         default_conversion=converters.default_serialization,
         fall_back_on_any=True,
+        # schemas are converted to the version by the serialization, whatever the settings
+        pass_through=PassThroughOptions(),
     )
     if with_schema and version.schema is not None:
         result["$schema"] = version.schema
@@ -895,6 +897,7 @@ def definitions_schema(
             check_type=True,
             conversion=version.conversion,
             default_conversion=converters.default_serialization,
+            pass_through=PassThroughOptions(),
         )
         for ref, schema in schemas.items()
     }
